@@ -965,6 +965,9 @@ func (c *SpecCtx) methodOrQualifiedCall(s *ESel, args []Expr) TV {
 							cc.pkg = imp
 							return cc.expandMacro(m, evalArgs())
 						}
+						if sf, ok := c.e.W.Contracts.SpecFns[imp.Path()+"::"+s.F]; ok {
+							return c.specFnApp(imp.Path(), sf, evalArgs())
+						}
 						c.fail("%s.%s is not callable in specs", id.Name, s.F)
 					}
 				}
